@@ -28,6 +28,7 @@ structure DState where
   active : Bool
   s : State
   dps : List DPeer
+  real : Option (List Nat) := none   -- sparse geometry: the only pieces that can hold data
 
 def DState.init : DState :=
   { active := false, s := State.init { ps := 0, length := 0, held := [], content := fun _ => 0 }, dps := [] }
@@ -42,6 +43,10 @@ def insertSorted (x : Nat) : List Nat → List Nat
   | y :: ys => if x ≤ y then x :: y :: ys else y :: insertSorted x ys
 
 def sortNat (l : List Nat) : List Nat := l.foldl (fun acc x => insertSorted x acc) []
+
+def ascending : List Nat → Bool
+  | a :: b :: rest => a < b && ascending (b :: rest)
+  | _ => true
 
 def numPieces (st : Store) : Nat := if st.ps = 0 then 0 else (st.length + st.ps - 1) / st.ps
 
@@ -157,15 +162,31 @@ def bit (s : String) : Option Bool :=
 
 def step (d : DState) (ws : List String) : DState × String :=
   match ws with
-  | ["reset", ps, len, salt, rate] =>
+  | "reset" :: ps :: len :: salt :: rate :: rest =>
+    -- reset <ps> <length> <salt> <rate> [@j1,j2,...]   (the list: sparse geometry, > 4 GiB)
     match ps.toNat?, len.toNat?, salt.toNat?, rate.toNat? with
     | some ps, some len, some salt, some rate =>
-      if ps > 0 && ps % 16384 == 0 && ps ≤ 1048576 && len > 0 && len ≤ 8388608 && rate ≤ 4194304
+      if ps > 0 && ps % 16384 == 0 && ps ≤ 8388608 && len > 0 && len ≤ 17179869184 && rate ≤ 4194304
           && salt < 18446744073709551616 then
-        ({ active := true,
-           s := State.init { ps := ps, length := len, held := [],
-                             content := contentByte (UInt64.ofNat salt) },
-           dps := [] }, "ok")
+        let np := (len + ps - 1) / ps
+        let real : Option (Option (List Nat)) := match rest with
+          | [] => some none
+          | [l] =>
+            if l.startsWith "@" && l.length > 1 then
+              match ((l.drop 1).toString.splitOn ",").mapM String.toNat? with
+              | some js =>
+                if js.length ≤ 16 && js.all (· < np) && ascending js then some (some js) else none
+              | none => none
+            else none
+          | _ => none
+        match real with
+        | none => (d, "bad-op")
+        | some real =>
+          if real.isNone && len > 8388608 then (d, "bad-op") else
+          ({ active := true,
+             s := State.init { ps := ps, length := len, held := [],
+                               content := contentByte (UInt64.ofNat salt) },
+             dps := [], real := real }, "ok")
       else (d, "bad-op")
     | _, _, _, _ => (d, "bad-op")
   | ["e2e", n] =>
@@ -203,7 +224,7 @@ def step (d : DState) (ws : List String) : DState × String :=
     | ["store", kind, j] =>
       match j.toNat? with
       | some j =>
-        if j < numPieces d.s.store then
+        if j < numPieces d.s.store && (match d.real with | some l => l.contains j | none => true) then
           let s1 := match kind with
             | "add" => some (Upload.step d.s (.storeAdd j)).1
             | "evict" => some (Upload.step d.s (.storeEvict j)).1
